@@ -188,6 +188,14 @@ pub fn sanitize_with_config<R: Read + Skip>(mut input: R, config: Config) -> Res
         ExtraUnparsedInput,
     );
 
+    // Inputs whose `skip` succeeds past the end of the stream (e.g. anything implementing `Seek`) don't report a chunk
+    // extending past the end of the input when it is skipped, so check for that here.
+    ensure_attach!(
+        input.stream_position()? <= input.stream_len()?,
+        ParseError::TruncatedChunk,
+        WhileParsingChunk(RIFF),
+    );
+
     Ok(())
 }
 
